@@ -418,7 +418,7 @@ def run_scenario(desc):
             if op[0] == 'construct' and ev['res'] != 'ok':
                 break
         tr = rec.finish()
-        tr['desc'] = {k: v for k, v in desc.items() if k not in ('rows',)}
+        tr['desc'] = {'indomain': bool(desc.get('indomain', True))}
         tr['nrows'] = len(desc['rows'])
         return tr
     except Inexact as e:
